@@ -19,10 +19,11 @@
    Stale handles: C03_live_or_detached, C03_detached_not_live, C03_stale*, (DetFiles = detached chains carry no local
    file sets; needed only by the four requests that ask for min_version and not for the model).
    Iterators: C03_iter_dfs (element- and model-scoped, every max_depth), C03_iter_sub_elements, C03_iter_file.
-   Partial: DetFiles is a hypothesis of C03_stale for the four min_version-only requests. *)
+   DetFiles: C03_detfiles_inv / _histories show DF (hence DetFiles) is an invariant under TreeInv, so C03_stale_inv and
+   C03_stale_reachable need no extra hypothesis. *)
 From AV Require Import Base.Bytes Base.Outcome Hash.HashModel Tree.Heap Tree.Ops Tree.Script Tree.Inv Tree.Iter
   Tree.InvProofsTree Tree.InvProofsNav Tree.InvProofs Tree.StaleProofs Tree.IterProofs Tree.IterProofsFile
-  Tree.InvExamples.
+  Tree.InvProofsDetFiles Tree.InvProofsDetFilesMain Tree.InvExamples.
 Open Scope string_scope.
 Open Scope list_scope.
 Open Scope N_scope.
@@ -182,6 +183,40 @@ Theorem C03_stale_queries :
     (forall r w', DetFiles w -> q_file_membership h w = Val (r, w') -> w' = w /\ r = ER ItemDeleted) /\
     (forall r w', parent_in w h = PNone -> q_parent h w = Val (r, w') -> w' = w /\ r = ER ItemDeleted).
 Proof. exact stale_queries. Qed.
+
+(* DF w: detached elements carry no local file set (implies DetFiles); an invariant of every operation under TreeInv *)
+Theorem C03_detfiles_init : DF empty_world /\ (forall w, DF w -> DetFiles w).
+Proof. exact (conj DF_empty DF_DetFiles). Qed.
+
+Theorem C03_detfiles_inv :
+  forall (T : tables) (tab_el tab_en : nametab) (check_fn : N -> list N -> res bool) (LATEST : N)
+         (root_attrs : list (N * cdata)) (o : op) (w : world) (r : out value) (w' : world),
+    TreeInv w -> DF w -> Inv.run T tab_el tab_en check_fn LATEST root_attrs o w = Val (r, w') -> DF w'.
+Proof. exact DF_step. Qed.
+
+Theorem C03_detfiles_histories :
+  forall (T : tables) (tab_el tab_en : nametab) (check_fn : N -> list N -> res bool) (LATEST : N)
+         (root_attrs : list (N * cdata)) (l : list op) (w w' : world),
+    TreeInv w -> DF w -> Inv.clean_ops T tab_el tab_en check_fn LATEST root_attrs l w = true ->
+    Inv.run_ops T tab_el tab_en check_fn LATEST root_attrs l w = Val w' -> TreeInv w' /\ DF w'.
+Proof. exact DF_histories. Qed.
+
+(* the stale-handle theorem without the extra hypothesis *)
+Theorem C03_stale_inv :
+  forall (T : tables) (tab_el tab_en : nametab) (check_fn : N -> list N -> res bool) (LATEST : N)
+         (root_attrs : list (N * cdata)) (o : op) (h : id) (w : world) (r : out value) (w' : world),
+    DF w -> Detached w h -> principal o = Some h -> place_dependent o = true ->
+    Inv.run T tab_el tab_en check_fn LATEST root_attrs o w = Val (r, w') -> w' = w /\ failed r.
+Proof. exact stale_fails_inv. Qed.
+
+Theorem C03_stale_reachable :
+  forall (T : tables) (tab_el tab_en : nametab) (check_fn : N -> list N -> res bool) (LATEST : N)
+         (root_attrs : list (N * cdata)) (l : list op) (w : world) (o : op) (h : id) (r : out value) (w' : world),
+    Inv.run_ops T tab_el tab_en check_fn LATEST root_attrs l empty_world = Val w ->
+    Inv.clean_ops T tab_el tab_en check_fn LATEST root_attrs l empty_world = true ->
+    Detached w h -> principal o = Some h -> place_dependent o = true ->
+    Inv.run T tab_el tab_en check_fn LATEST root_attrs o w = Val (r, w') -> w' = w /\ failed r.
+Proof. exact stale_fails_reachable. Qed.
 
 (* ---------- the finding: an error after the point of no return leaves an orphan ---------- *)
 Theorem C03_failed_reparent_refuted :
